@@ -438,7 +438,7 @@ theorem lua_agrees_src {resp lua : List SRow} (h : rowsDescribe resp (shapeRows 
 
 /-! ## table-driven commands: the grammar is COMPUTED from the regenerated row
 
-  For the commands whose body is one of the four table-driven forms (`const`, `fixed`, `many`, `pairs`: 71 of the 94
+  For the commands whose body is one of the four table-driven forms (`const`, `fixed`, `many`, `pairs`: 71 of the 97
   top-level entries of `from_resp`'s table) the regenerated row does not merely constrain the model's entry: it determines it.  `SRow.body?`
   builds the body from the row alone (constructor, slot kinds, tail); `body_of_described` shows that a row that describes a
   table-driven entry yields exactly that entry's body; hence `resp_dsl_is_generated`: for every frame of such a command,
@@ -572,7 +572,39 @@ theorem resp_dsl_is_generated {src : List SRow} (h : rowsDescribe src (shapeRows
     simp only [if_true]
     cases s.body.run args <;> rfl
 
-/-- how many commands of `from_resp`'s table are table-driven with plain slots (the scope of `resp_dsl_is_generated`): 71 of the 94 top-level entries; the sub-commands of the seven families are
+/-- the same one level down: a table-driven SUB-command (CONFIG GET, ACL SETUSER, SCRIPT LOAD, CLIENT SETNAME, OBJECT
+    ENCODING, DEBUG SLEEP …) is parsed by the body generated from its regenerated row `FAMILY.SUB` -/
+theorem resp_dsl_sub_is_generated {src : List SRow} (h : rowsDescribe src (shapeRows table) = true)
+    (hdef : src.all SRow.definite = true)
+    (name sub : Bytes) (args : List Bytes) (fam aerr : Bytes) (subs : List Spec)
+    (dflt : Bytes → List Bytes → Res) (s : Spec)
+    (hf : findEntry table (kw name) = some (.family fam aerr subs dflt)) (hs : findSpec subs (kw sub) = some s)
+    (hb : s.body.plainDsl = true) :
+    ∃ r ∈ src, r.name = fam ++ 46 :: s.name ∧ ∃ b, r.body? = some b ∧
+      parseCmd (name :: sub :: args) =
+        if r.arity.ok args.length then liftB (b.run args) else .error (.arity r.aerr) := by
+  obtain ⟨r, hr, d, hn, _⟩ := resp_governed_sub h name sub args fam aerr subs dflt s hf hs
+  have hd := List.all_eq_true.mp hdef r hr
+  have hbody : r.body? = some s.body :=
+    body_of_described (name := (fam ++ [46]) ++ s.name) (ar := s.arity) (aerr := s.arityErr) d hb hd
+  refine ⟨r, hr, hn, s.body, hbody, ?_⟩
+  simp only [parseCmd, parseWith, hf, hs]
+  have ha : r.arity = s.arity := d.arity
+  have he : r.aerr = s.arityErr := d.aerr
+  rw [ha, he]
+  unfold Spec.run
+  cases s.arity.ok args.length with
+  | false => rfl
+  | true =>
+    simp only [if_true]
+    cases s.body.run args <;> rfl
+
+/-- the sub-commands in the scope of `resp_dsl_sub_is_generated` -/
+theorem dsl_subcommands_count :
+    ((table.flatMap fun e => match e with | .family _ _ subs _ => subs | _ => []).filter (fun s => s.body.plainDsl)).length = 24 := by
+  decide +kernel
+
+/-- how many commands of `from_resp`'s table are table-driven with plain slots (the scope of `resp_dsl_is_generated`): 71 of the 97 top-level entries; the sub-commands of the seven families are
     table-driven too (`resp_governed_sub` gives their rows) -/
 theorem dsl_commands_count :
     (table.filter (fun e => match e with | .cmd s => s.body.plainDsl | _ => false)).length = 71 := by decide +kernel
